@@ -286,6 +286,21 @@ let handle (x : sx) : sx =
        | Ok t' ->
            L [A "ok"; sx_tree t'; sx_str (write8 t');
               L (List.map (fun (p, d) -> L [sx_path p; sx_nat d]) (annot_depth O [] t'))])
+  | L [A "lookups"; t; d; L (A "ext" :: ks); L (A "names" :: ns)] ->
+      let t = tree_of_sx t and d = doc_of_sx d in
+      L [L (List.map (fun k -> sx_result (fun gs -> L (List.map sx_str gs)) (get_genes_by_external_id d (str_of_sx k))) ks);
+         L (List.map (fun n -> sx_result sx_path (get_taxon_by_name t (str_of_sx n))) ns)]
+  | L [A "session"; t; fo; L (A "genomes" :: gs); L (A "ops" :: ops)] ->
+      let t = tree_of_sx t and fo = forest_of_sx fo in
+      let op_of = function
+        | L [A "vertical"; a; b] -> OVertical (path_of_sx a, path_of_sx b)
+        | L [A "lateral"; a; b] -> OLateral (path_of_sx a, path_of_sx b)
+        | L [A "profile_full"] -> OProfileFull
+        | L [A "clustering"; p] -> OClustering (path_of_sx p)
+        | L [A "iham"; o] -> OIham (nat_of_sx o)
+        | _ -> failwith "op" in
+      let s = srun t fo (List.map op_of ops) (sinit (List.map path_of_sx gs)) in
+      L [L (A "genomes" :: List.map sx_path s.ss_genomes); L [A "maps"; sx_int (List.length s.ss_maps)]]
   | L [A "path_up"; lo; an] -> L (List.map sx_path (path_up (path_of_sx lo) (path_of_sx an)))
   | _ -> A "badrequest"
 
